@@ -99,6 +99,8 @@ TOLERATED = [
      "results still in flight after an error has already been returned are drained and ignored", _g_after_join),
     (r"(^|::)Pp::<'a>::", r"(^|::)Pp::<'a>::(execute_in_clean_mode|execute_directive_temp)$",
      "clean tolerates directive errors (README: clean succeeds on erroneous sources)", _g_clean_mode),
+    (r"(^|::)Pp::<'a>::", r"^aggregate$",
+     "clean tolerates directive errors: the Ok(()) / temp-cleaner result of the spliced clean-mode helper is discarded", _g_clean_mode),
     (r"(^|::)IOCtx::write_temp_file$", r"(^|::)AbsPath::try_resolve$",
      "clean: a temp target that does not exist is simply not removed", _g_clean_mode),
     (r"(^|::)Pp::<'a>::run_internal$", r"(^|::)iterate_directive$",
@@ -116,7 +118,14 @@ def _origins(b, pl):
     lv = C.trace(b, pl, through_decorators=True, transparent=lambda t: C.is_transparent(t) or
                  C.callee_name(t) in ("std::result::Result::<T, E>::map", "std::result::Result::<T, E>::and_then"))
     out = []
+    lv2 = []
     for l in lv:
+        if l.kind == "errpayload":
+            # the error of a Result bound by a pattern (`Err(_) if cleaning => ..`): name the fallible call it came from
+            lv2 += [x for x in err_origins(b, {"k": "move", "pl": {"l": l.data["l"], "p": []}}) if x.kind != "errpayload"] or [l]
+        else:
+            lv2.append(l)
+    for l in lv2:
         if l.kind == "call":
             out.append(C.callee_name(l.data))
         elif l.kind == "param":
@@ -302,8 +311,9 @@ def _success_payload(pl):
                and e.get("variant") in ("Ok", "Some", "Continue") for e in pl["p"])
 
 
-def forward_uses_ext(b, local):
-    """forward_uses + pseudo sinks RETURN (flows into _0), MATCH (discriminant read: handled by R04.1 drops)"""
+def forward_uses_ext(b, local, through_try=False):
+    """forward_uses + pseudo sinks RETURN (flows into _0), MATCH (discriminant read: handled by R04.1 drops).
+    through_try: `x?` is followed on to where its residual goes (the `?` of a spliced helper returns to the helper's caller, not to ours)"""
     out = []
     seen = set()
     work = [local]
@@ -338,7 +348,7 @@ def forward_uses_ext(b, local):
             if any((C.op_place(a) or {}).get("l") == l and not _success_payload(C.op_place(a)) for a in t["args"]):
                 nm = C.callee_name(t)
                 out.append(nm)
-                if nm in R042_NEUTRAL:
+                if nm in R042_NEUTRAL or (through_try and (nm == TRY or C.is_from_residual(t))):
                     work.append(t["dest"]["l"])
     return out
 
@@ -412,6 +422,7 @@ def r04_4(ctx):
         errs = set(err_sites(ri))
         oks = set(ok_sites(ri))
         heads = {bb for bb, t in ri.calls() if C.callee_name(t) == "std::sync::mpsc::Receiver::<T>::try_recv"}
+        first_err_region = {}      # scrutinee place -> blocks reachable from the Err edge of an earlier test of the same place
         for sbb in C.switches(ri):
             c = C.switch_cond(ri, sbb)
             if c.kind != "enum" or c.adt != "std::result::Result" or not is_payload(c.src + C.trace(ri, c.place, through_fields=True)):
@@ -422,6 +433,11 @@ def r04_4(ctx):
             reached = C.region(ri, err_e, cut=out_edges(ri, errs))
             if not reached:
                 continue      # the Err edge is infeasible here (a re-test after the error was already handled)
+            pkey = C.pl_str(c.place) if c.place else None
+            if pkey in first_err_region and len([r for r in ri.defs().get(c.place["l"], []) if r[0] in ("assign", "call")]) <= 1:
+                # the same payload (of a value bound once) was already tested and its Err edge judged: every path that can take THIS
+                # Err edge took that one first (drop elaboration re-tests the scrutinee at the end of the match)
+                continue
             # drop elaboration re-tests the discriminant at the end of the scope to drop what was not moved out: such a switch is
             # followed only by drops / gotos / drop-flag updates (no call, no real assignment) until the loop head or the return
             stop = C.after_edges(ri, err_e, cut=out_edges(ri, heads | {x for x in reached if ri.term(x)["k"] == "return"}))
@@ -432,6 +448,8 @@ def r04_4(ctx):
             esc = [x for x in reached if x in oks or x in heads or ri.term(x)["k"] == "return"]
             cnt += 1
             if (errs & reached) and not esc:
+                if pkey is not None:
+                    first_err_region[pkey] = reached
                 ctx.ok("worker error matched: the Err arm returns Err", site=ctx.site(ri, sbb))
             else:
                 ctx.violation([ri.name, "task-error-arm"], "a failed worker result is matched but its Err arm does not always return an error "
